@@ -149,8 +149,14 @@ class _STIXBase(collections.abc.Mapping):
                         ext_id, "2.1", "extensions",
                     )
                     if registered_ext_class:
+                        # (A registered extension of another kind has no such
+                        # table; its own cleaning refuses the wrong
+                        # extension_type below.)
                         registered_toplevel_extension_props.update(
-                            registered_ext_class._toplevel_properties,
+                            getattr(
+                                registered_ext_class,
+                                "_toplevel_properties", {},
+                            ),
                         )
                     else:
                         has_unregistered_toplevel_extension = True
